@@ -6,5 +6,7 @@ Key3 == <<"k1", "k2", "k3">>
 PutK1 == {"k1"}
 PutK12 == {"k1", "k2"}
 Val1 == {1}
+ViaDirect == {"direct"}
+ViaBoth == {"direct", "lbatch"}
 Val2 == {1, 2}
 ====
